@@ -50,7 +50,7 @@ Reset == /\ IsKind("reset")
 Flush(id) ==
   LET ws == SetToSeq(DOMAIN W)
       \* with several Watchers in the scenario a wrong event stream also contradicts C14 (independence of other Watchers)
-      Props1(p) == IF Cardinality(DOMAIN W) > 1 /\ p \cap {"C01", "C02", "C03", "C08", "C11"} # {} THEN p \cup {"C14"} ELSE p
+      Props1(p) == IF Cardinality(DOMAIN W) > 1 /\ p \cap {"C01", "C02", "C03", "C08", "C09", "C11"} # {} THEN p \cup {"C14"} ELSE p
       \* ... and with a recursive watch, C19 (true paths, exactly its own tree)
       Props2(w, p) == IF W[w].recursive /\ p \cap {"C01", "C02", "C03", "C08", "C09"} # {} THEN p \cup {"C19"} ELSE p
       perW == [k \in 1..Len(ws) |-> [b \in 1..Len(W[ws[k]].bad) |->
@@ -100,6 +100,9 @@ DirBook(ws, ln) ==
   IF ~ws.recursive \/ ln.ret # "ok" THEN ws
   ELSE IF ln.op = "mkdir" THEN LET p == ParentOf(ln.shadow, IN_CREATE) IN CoverNewDir(ws, p.ino, p.n, ln.ino)
   ELSE IF ln.op = "rename" /\ ln.kind = "dir" THEN LET p == ParentOf(ln.shadow, IN_MOVED_TO) IN MoveDir(ws, ln.ino, p.ino, p.n)
+  \* a name inside the tree now is a symbolic link to itself: if a directory was created under that name and the
+  \* reader has not got to it yet, watching it fails with ELOOP and that is reported on Errors
+  ELSE IF ln.op = "symloop" THEN [ws EXCEPT !.flags = @ \cup {"regloop"}]
   ELSE ws
 
 Fs == /\ IsKind("fs")
